@@ -34,7 +34,7 @@ def weights_normalised(ctx, rule="C07.weights-normalised"):
             n += 1
 
             def is_total(e):
-                e = expand_locals(f.node, e)
+                e = expand_locals(f.node, e, keep={w.id})
                 if isinstance(e, ast.Call) and dotted(e.func) in ("np.sum", "sum", "np.add.reduce") and e.args and \
                         dotted(e.args[0]) == w.id:
                     return True
